@@ -41,8 +41,8 @@ package keeper
 //@ ensures parsed: err == nil ==> txparse_err(deposit.NoWitnessTx) == 0 && deposit.OutputIndex < txnout(deposit.NoWitnessTx)
 //@ ensures fresh: err == nil ==> !has(st.bitcoin.Deposited, pair(dsha256(deposit.NoWitnessTx), deposit.OutputIndex))
 //@ ensures min_amount: err == nil ==> u64(txoutval(deposit.NoWitnessTx, deposit.OutputIndex)) >= st.bitcoin.Params.MinDepositAmount
-// FINDING F-C03-1 (clause FAILS, kept disabled so that the check terminates; see /var/tmp/ag_btc/NOTES.md):
-// ensures value_nonneg: err == nil ==> txoutval(deposit.NoWitnessTx, deposit.OutputIndex) >= 0
+// the output value is a signed 64-bit field of the transaction: a credited output must not be negative
+//@ ensures value_nonneg: err == nil ==> txoutval(deposit.NoWitnessTx, deposit.OutputIndex) >= 0
 //@ ensures script: err == nil ==> (deposit.Version == 0 || deposit.Version == 1)
 //@           && (deposit.Version == 0 ==> depositScriptV0(deposit.RelayerPubkey, deposit.EvmAddress, txoutscript(deposit.NoWitnessTx, deposit.OutputIndex)))
 //@           && (deposit.Version == 1 ==> deposit.OutputIndex == 0 && txnout(deposit.NoWitnessTx) >= 2
